@@ -183,10 +183,9 @@ def renest_moved_functions(modules, exits):
             if f2.decorator_list and not _is_static(f2):
                 continue
             params = [p.arg for p in f2.args.args]
-            n_extra = len(params) - len(old_params)
-            if n_extra < 0 or len(f2.args.defaults) > len(old_params):
+            captured = [p_ for p_ in params if p_ not in old_params]
+            if [p_ for p_ in params if p_ in old_params] != old_params or (f2.args.defaults and any(p_ in captured for p_ in params[len(params) - len(f2.args.defaults):])):
                 continue
-            captured = params[:n_extra]
 
             def mentions(node):
                 return [n for n in ast.walk(node) if (isinstance(n, ast.Name) and n.id == bare2 and isinstance(n.ctx, ast.Load)) or (isinstance(n, ast.Attribute) and n.attr == bare2)]
@@ -219,15 +218,28 @@ def renest_moved_functions(modules, exits):
                 continue
             nf = copy.deepcopy(f2)
             nf.name, nf.decorator_list = g, []
-            nf.args.args = nf.args.args[n_extra:]
+            nf.args.args = [a_ for a_ in nf.args.args if a_.arg not in captured]
             sub = _ParamSubst({p: v for p, v in cap.items() if not (isinstance(v, ast.Name) and v.id == p)})
             nf.body = [sub.visit(st) for st in nf.body]
             for c, m, explicit in bound:
                 c.func = ast.copy_location(ast.Name(id=g, ctx=ast.Load()), c.func)
-                c.args = [m[p] for p in params[n_extra:] if p in explicit]
+                c.args = [m[p] for p in old_params if p in explicit]
                 c.keywords = []
             doc = 1 if parent.body and isinstance(parent.body[0], ast.Expr) and isinstance(parent.body[0].value, ast.Constant) and isinstance(parent.body[0].value.value, str) else 0
-            parent.body.insert(doc, nf)
+            # put back just before the statement that calls it when all the calls sit in one statement of one block (where a closure is usually defined), else on top
+            spot = None
+            for node in ast.walk(parent):
+                for field in ("body", "orelse", "finalbody"):
+                    blk = getattr(node, field, None)
+                    if isinstance(blk, list) and blk and all(isinstance(x, ast.stmt) for x in blk):
+                        holders = [k for k, x in enumerate(blk) if not isinstance(x, (ast.If, ast.For, ast.While, ast.Try, ast.With, ast.FunctionDef)) and any(c_ is y for c_, _, _ in bound for y in ast.walk(x))]
+                        inner = sum(1 for x in blk for c_, _, _ in bound if any(c_ is y for y in ast.walk(x)))
+                        if len(holders) == 1 and inner == len(bound) and node is not parent:
+                            spot = (blk, holders[0])
+            if spot is not None:
+                spot[0].insert(spot[1], nf)
+            else:
+                parent.body.insert(doc, nf)
             _remove_def(tree, f2)
             ast.fix_missing_locations(tree)
             done.append("%s.%s <- %s" % (mod, q, q2))
@@ -618,6 +630,93 @@ def split_merged_tail(tree, recorded):
         st.body = st.body + copy.deepcopy(tail) + [ast.copy_location(ast.Continue(), st)]
         loop.body[k + 1:k + 1] = st.orelse
         st.orelse = []
+        n += 1
+    ast.fix_missing_locations(tree)
+    return n
+
+
+# ---------------------------------------------------------------------------------------------------------------------
+# both branches leave:  if c: A(leaves) ; B(leaves, to the end of the function)   is   if not c: B ; A      (restored to the recorded polarity)
+# ---------------------------------------------------------------------------------------------------------------------
+_NEG = {ast.Is: ast.IsNot, ast.IsNot: ast.Is, ast.Eq: ast.NotEq, ast.NotEq: ast.Eq, ast.Lt: ast.GtE, ast.GtE: ast.Lt, ast.Gt: ast.LtE, ast.LtE: ast.Gt, ast.In: ast.NotIn, ast.NotIn: ast.In}
+
+
+def negate(t):
+    if isinstance(t, ast.UnaryOp) and isinstance(t.op, ast.Not):
+        return t.operand
+    if isinstance(t, ast.Compare) and len(t.ops) == 1 and type(t.ops[0]) in _NEG:
+        return ast.Compare(left=t.left, ops=[_NEG[type(t.ops[0])]()], comparators=t.comparators)
+    return ast.UnaryOp(op=ast.Not(), operand=t)
+
+
+def if_tests_of(tree):
+    return sorted({ast.dump(n.test) for n in ast.walk(tree) if isinstance(n, ast.If)})
+
+
+def load_if_tests():
+    if not os.path.exists(IFS_TABLE):
+        return {}
+    return {k: set(v) for k, v in json.load(open(IFS_TABLE)).get("if_tests", {}).items()}
+
+
+def _leaves(body):
+    return bool(body) and isinstance(body[-1], (ast.Return, ast.Raise))
+
+
+def restore_guard_polarity(tree, recorded):
+    n = 0
+    for fn in ast.walk(tree):
+        if not isinstance(fn, (ast.FunctionDef, ast.AsyncFunctionDef)):
+            continue
+        body = fn.body
+        for k, st in enumerate(body):
+            if isinstance(st, ast.If) and not st.orelse and _leaves(st.body) and _leaves(body[k + 1:]):
+                neg = negate(st.test)
+                if ast.dump(st.test) not in recorded and ast.dump(neg) in recorded:
+                    rest = body[k + 1:]
+                    body[k + 1:] = st.body
+                    st.body, st.test = rest, neg
+                    n += 1
+                break
+        ast.fix_missing_locations(fn)
+    return n
+
+
+# ---------------------------------------------------------------------------------------------------------------------
+# *[f(x) for x in xs]  is  *map(f, xs)     (only where the confirmed tree did not have that comprehension)
+# ---------------------------------------------------------------------------------------------------------------------
+def _star_comps(tree):
+    for c in ast.walk(tree):
+        if isinstance(c, ast.Call):
+            for a in c.args:
+                if isinstance(a, ast.Starred) and isinstance(a.value, (ast.ListComp, ast.GeneratorExp)):
+                    yield a
+
+
+def star_comps_of(tree):
+    return sorted({ast.dump(a.value) for a in _star_comps(tree)})
+
+
+def load_star_comps():
+    if not os.path.exists(IFS_TABLE):
+        return {}
+    return {k: set(v) for k, v in json.load(open(IFS_TABLE)).get("star_comps", {}).items()}
+
+
+def star_comp_to_map(tree, recorded):
+    n = 0
+    for a in list(_star_comps(tree)):
+        comp = a.value
+        if ast.dump(comp) in recorded or len(comp.generators) != 1:
+            continue
+        g = comp.generators[0]
+        e = comp.elt
+        if g.ifs or g.is_async or not isinstance(g.target, ast.Name) or not (isinstance(e, ast.Call) and isinstance(e.func, (ast.Name, ast.Attribute)) and not e.keywords
+                                                                             and len(e.args) == 1 and isinstance(e.args[0], ast.Name) and e.args[0].id == g.target.id):
+            continue
+        if any(isinstance(x, ast.Name) and x.id == g.target.id for x in ast.walk(e.func)):
+            continue
+        a.value = ast.copy_location(ast.Call(func=ast.Name(id="map", ctx=ast.Load()), args=[e.func, g.iter], keywords=[]), comp)
         n += 1
     ast.fix_missing_locations(tree)
     return n
